@@ -389,3 +389,11 @@ func ConstInt(info *types.Info, e ast.Expr) (int64, bool) {
 	}
 	return constant.Int64Val(tv.Value)
 }
+
+// ConstInt64 returns the integer value of a typed constant.
+func ConstInt64(k *types.Const) (int64, bool) {
+	if k == nil || k.Val() == nil || k.Val().Kind() != constant.Int {
+		return 0, false
+	}
+	return constant.Int64Val(k.Val())
+}
